@@ -255,6 +255,18 @@ def run(ctx):
 
     # ---- C06.b normalisation constant ----------------------------------------------------------------
     ctx.rule("C06.b", "normalize(): in-place and copying branch scale by the same k/total for the same `percent`", 2)
+    nzf = HB.methods["normalize"]
+    n_r, lazy = 0, []
+    for p_ in function_paths(nzf.node):
+        if end_kind(p_) != "return":
+            continue
+        n_r += 1
+        scaled = any(s_[0] == "stmt" and isinstance(s_[1], ast.AugAssign) and U(s_[1].target) == "self" and isinstance(s_[1].op, ast.Div) for s_ in p_) \
+            or (isinstance(p_[-1][2].value, ast.BinOp) and "self.total" in U(p_[-1][2].value))
+        if not scaled:
+            lazy.append(" & ".join(f"{U(s_[1])}={s_[2]}" for s_ in p_ if s_[0] == "cond")[:80])
+    ctx.check(n_r >= 2 and not lazy, "C06.b", "HistogramBase.normalize:every-path-rescales", f"all {n_r} returning paths divide by the total",
+              f"normalize() returns without rescaling when {lazy[:2]} (percent is then ignored)", nzf.where)
     nz = HB.methods.get("normalize")
     ctx.saw(nz)
 
@@ -358,6 +370,9 @@ def run(ctx):
     defs = [f"{c.name}.{n}" for c in m.classes.values() if m.is_subclass(c, "HistogramBase") for n in forbidden if n in c.methods]
     ctx.check(not defs, "C06.d", "hierarchy:no-reflected-division-or-power", "scalar / histogram and powers stay undefined (TypeError by Python)",
               f"operators defined that the statement says are refused: {defs}", HB.where)
+
+    from rules import c14
+    c14.check_variance_domain(ctx, "C06.a", m)    # rescaled statistics keep their variance: defined for every positive weight
 
     # ---- C06.e sibling agreement on the scalar test --------------------------------------------------------
     ctx.rule("C06.e", "Statistics.__mul__ accepts exactly the scalars the histogram operators route to it (np.isscalar)", 3)
